@@ -2,6 +2,9 @@ package c01
 
 import (
 	"fmt"
+
+	"github.com/cloudwego/hertz/pkg/app/server"
+	"github.com/cloudwego/hertz/pkg/common/config"
 	"os"
 	"testing"
 
@@ -220,7 +223,14 @@ func netServer(t interface{ Fatalf(string, ...interface{}) }, transport string, 
 	if s, ok := netServers[k]; ok {
 		return s
 	}
-	s, err := srv.NewNetEcho(srv.Config{Stream: stream, MaxBody: 8 << 20}, transport)
+	cfg := srv.Config{Stream: stream, MaxBody: 8 << 20}
+	tr := transport
+	if transport == "netpoll-idle0" {
+		// IdleTimeout 0: the connection goes back to the poller after every request
+		tr = "netpoll"
+		cfg.Extra = []config.Option{server.WithIdleTimeout(0)}
+	}
+	s, err := srv.NewNetEcho(cfg, tr)
 	if err != nil {
 		t.Fatalf("harness: %v", err)
 	}
@@ -238,7 +248,7 @@ func TestC01Loopback(t *testing.T) {
 	}()
 	timeouts := 0
 	rapid.Check(t, func(t *rapid.T) {
-		transport := rapid.SampledFrom([]string{"netpoll", "netpoll", "standard"}).Draw(t, "transport")
+		transport := rapid.SampledFrom([]string{"netpoll", "netpoll-idle0", "standard"}).Draw(t, "transport")
 		stream := rapid.Bool().Draw(t, "streaming")
 		s := gen.GenStream(t, 5, gen.ReqOpts{Fold: true, NearMiss: true, Expect: true, HTTP10: true, Huge: ev.Thorough()})
 		if last := s.Reqs[len(s.Reqs)-1]; !last.Close {
